@@ -927,3 +927,77 @@ pub fn bad_contains_other_variable(v: &[u8; 8], n: usize, m: usize) -> u8 {
         0
     }
 }
+
+pub fn loopgood_bisect_loop_form(v: &[u32], key: u32) -> usize {
+    let mut lo = 0usize;
+    let mut hi = v.len();
+    loop {
+        if lo >= hi {
+            break lo;
+        }
+        let mid = lo + (hi - lo) / 2;
+        if key < v[mid] {
+            hi = mid;
+        } else if key > v[mid] {
+            lo = mid + 1;
+        } else {
+            return mid;
+        }
+    }
+}
+
+// ---- position() over a prefix ---------------------------------------------------------------------------------------
+
+pub fn good_position_prefix(v: &[u32; 16], n: usize, key: u32) -> u32 {
+    if n > 15 {
+        return 0;
+    }
+    let ix = v[..n].iter().position(|x| *x >= key).unwrap_or(n);
+    v[ix]
+}
+
+// the position comes from another, longer slice
+pub fn bad_position_other_slice(v: &[u32; 16], w: &[u32], n: usize, key: u32) -> u32 {
+    if n > 15 {
+        return 0;
+    }
+    let ix = w.iter().position(|x| *x >= key).unwrap_or(n);
+    v[ix]
+}
+
+// the default is not bounded
+pub fn bad_position_default(v: &[u32; 16], n: usize, d: usize, key: u32) -> u32 {
+    if n > 15 {
+        return 0;
+    }
+    let ix = v[..n].iter().position(|x| *x >= key).unwrap_or(d);
+    v[ix]
+}
+
+// a + c <= x + c for an available x + c: fine for the upper end, not for a signed lower end
+pub fn bad_signed_monotone_sum(a: i32, x: i32, c: i32) -> i32 {
+    let s = match x.checked_add(c) {
+        Some(s) => s,
+        None => return 0,
+    };
+    let t = x + c;
+    if a <= x && s == t {
+        a + c
+    } else {
+        0
+    }
+}
+
+pub fn good_monotone_sum(v: &[u8; 32], len: usize, k: usize, i: usize) -> u8 {
+    if k > 2 || len > 32 {
+        return 0;
+    }
+    if len + k > 32 {
+        return 0;
+    }
+    if i < len {
+        v[i + k]
+    } else {
+        0
+    }
+}
